@@ -189,6 +189,12 @@ PLAN['C06'] = flow_plan(
     'Non-trivial: >= 3 breadth-first levels and a node with >= 2 donors.',
     ['c06.edges_checked', 'c06.states_checked', 'final.multi', 'final.single', 'seq.mst-carve+none', 'seq.mst-basic+none'])
 
+# the donor table is also filled by the multi-threaded router: a ThreadSanitizer run of the parallel workload belongs to C06
+_c06q, _c06t = PLAN['C06']['quick'], PLAN['C06']['thorough']
+PLAN['C06']['quick'] = lambda seed: _c06q(seed) + runs('h_conc', ['raster_queen'], 'tsan', 1, 10, ['--x-delays', '0', '--x-repeats', '1'], prop='C10', case_timeout=300)
+PLAN['C06']['thorough'] = lambda seed: _c06t(seed) + runs('h_conc', ['raster_queen', 'trimesh'], 'tsan', 1, 80, ['--x-delays', '0'], prop='C10', case_timeout=900)
+PLAN['C06']['rule'] += ' Plus a ThreadSanitizer run of the multi-threaded router workload (h_conc): a race on the donor / receiver tables is a violation.'
+
 PLAN['C15'] = {
     'rule': FLOW_GEN + 'Single-router graph, basins(), then one Kruskal and one Boruvka basin_graph object reused over 1-4 '
             'updates (ties and patterns favoured: equal-weight edges, hub basins). Oracle: independent edge set (lowest pass '
